@@ -242,7 +242,7 @@ fn c14_r_int_is_numberlike_4() {
     r_int(&b);
 }
 
-//@ tier: thorough
+//@ tier: quick
 //@ funcs: read::yaml::parse_float, normalise_float, parse_sign, strip
 //@ bounds: every ASCII string of length 5 that starts with a sign and a dot (`+.` / `-.` + 3 symbolic bytes < 0x80) -- the reader-side counterpart of c14_w_signed_dot_family_5
 //@ assume: alloc::fmt::format stubbed (the normalised float TEXT is not the subject)
@@ -260,4 +260,31 @@ fn c14_r_float_signed_dot_family_5() {
         k += 1;
     }
     r_float(&b);
+}
+
+//@ tier: quick
+//@ funcs: read::yaml::parse_int, parse_sign, parse_radix
+//@ bounds: every ASCII string of length 5 that starts with a sign and a dot (`+.` / `-.` + 3 symbolic bytes < 0x80)
+//@ assume: jaq_json::Num::from_str_radix replaced by a sign-and-digits model; <Num as Neg>::neg replaced by the identity
+//@ asserts: R_int on the signed-dot family: if the real parse_int resolves s to an integer then s is number-like; with c14_r_float_signed_dot_family_5 and c14_w_signed_dot_family_5 this gives P for the whole family
+#[kani::proof]
+#[kani::unwind(8)]
+#[kani::stub(jaq_json::Num::from_str_radix, radix_model)]
+#[kani::stub(<jaq_json::Num as core::ops::Neg>::neg, neg_id)]
+fn c14_r_int_signed_dot_family_5() {
+    let b: [u8; 5] = kani::any();
+    kani::assume(b[0] == b'-' || b[0] == b'+');
+    kani::assume(b[1] == b'.');
+    let mut k = 2;
+    while k < 5 {
+        kani::assume(b[k] < 0x80);
+        k += 1;
+    }
+    let s = core::str::from_utf8(&b).unwrap();
+    let i = parse_int(s);
+    if i.is_some() {
+        assert!(m_mid(&b), "the reader takes for an integer a string that is not number-like");
+    }
+    kani::cover!(i.is_none());
+    core::mem::forget(i);
 }
